@@ -107,6 +107,31 @@ def run(cx):
                 inst.violation("server::HANDSHAKE_RESEND_COUNT", "SYN-ACK budget", "the server may send %d x %d = %d bytes of SYN-ACK to an unverified address that sent %d bytes" % (1 + n, A, A * (1 + n), min(S, Sr)))
             if not E < min(S, Sr):
                 inst.violation("frame::serial::write_handshake_error", "error budget", "an error reply of %d bytes is not smaller than the %d-byte request" % (E, min(S, Sr)))
+        # n is really the number of resends: the SYN-ACK timer is armed with HANDSHAKE_RESEND_COUNT and every resend
+        # towards a Pending address is guarded by count > 0 and followed by count -= 1 before the timer is re-queued
+        hs = R.body("server::Server::handle_handshake_syn")
+        armed = 0
+        for loc, t in hs.calls("event_queue::Event::new"):
+            args = [show(a) for a in hs.call_expr(t)[2]]
+            if "ResendHandshakeSynAck" in args[1]:
+                armed += 1
+                inst.site(hs, loc, "Event::new(_, ResendHandshakeSynAck, _, %s)" % args[3])
+                if args[3] != "server::HANDSHAKE_RESEND_COUNT":
+                    inst.violation(hs.path, "SYN-ACK resend budget", "the SYN-ACK resend timer is armed with `%s` resends, not the constant the budget is computed from" % args[3][:120], at=hs.span_at(loc))
+        if armed != 1:
+            inst.violation(hs.path, "SYN-ACK timer", "expected exactly one ResendHandshakeSynAck timer per accepted SYN, found %d" % armed)
+        he = R.body("server::Server::handle_event")
+        fah = cx.fa(he)
+        decs = [l for l, node, ps in he.field_writes(r"arg2\.count") if node["k"] == "assign" and show(he.rvalue_expr(node["rv"])) == "sub(arg2.count,1)"]
+        other = [l for l, node, ps in he.field_writes(r"arg2\.count") if l not in decs]
+        for l in other:
+            inst.violation(he.path, "event.count write", "the retry counter is written by something other than `count -= 1`", at=he.span_at(l))
+        pend_sends = [(loc, lab) for loc, lab in call_sites(he, "UdpSocket::send_to") if dnf_holds(fah.at(loc), [[r"is\(.*\.state,Pending\)"]])[0]]
+        for loc, lab in pend_sends:
+            inst.site(he, loc, "SYN-ACK resend")
+        cx.guard(inst, he, pend_sends, [[r"ne\(0,arg2\.count\)"]], construct="SYN-ACK resend without budget")
+        cx.followed_by(inst, he, pend_sends, decs, "SYN-ACK resend not counted", "event.count -= 1")
+        if S is not None and A is not None:
             if A != R.const_int("frame::serial::HANDSHAKE_SYN_ACK_FRAME_PAYLOAD_SIZE") + ov:
                 inst.violation("frame::serial::write_handshake_syn_ack", "SYN-ACK length", "writer literal length %d differs from the reader's expected size" % A)
 
